@@ -10,6 +10,7 @@ extern "C" {
   extern gpusim_dim3 gpusim_blockDim, gpusim_gridDim;
   void gpusim_launch(void (*body)(void*), void *arg, gpusim_dim3 grid, gpusim_dim3 block);
   void gpusim_barrier();
+  void gpusim_launch_bounds_violation(int kernel, unsigned bx, unsigned by, unsigned bz, const char *declared);
 }
 static inline int gpusim_aadd(int *p, int v) { return __atomic_fetch_add(p, v, __ATOMIC_RELAXED); }
 static inline unsigned gpusim_aadd(unsigned *p, unsigned v) { return __atomic_fetch_add(p, v, __ATOMIC_RELAXED); }
